@@ -40,6 +40,10 @@ THEOREMS = [
     "HedVerif.C18.no_overwrite",
     "HedVerif.C18.create_never_overwrites",
     "HedVerif.C18.create_existing_returns_false",
+    "HedVerif.C18.session_restore_identity",
+    "HedVerif.C18.crash_atomicity",
+    "HedVerif.C18.restore_recoverable",
+    "HedVerif.C18.stale_manager_overwrites_example",
 ]
 BUDGET = {"quick": 600, "thorough": 3000}
 STAMP = "2026-01-02 03:04:05.678901"
@@ -479,6 +483,27 @@ def crash_execute(ctx, env, st, ans, only_k=None):
                              {"scan": mview, "files": show(mfiles)}, {"scan": view, "files": show(ifiles)})
         ctx.count("after-crash:" + (view[1] if view[0] == "err" else
                                     ("listed" if any(e[0] == spec["name"] for e in view[1]) else "not-listed")))
+        # a directory without a valid record is not ignored: every entry point that opens a manager reports it
+        # (same exception class), so neither create nor restore with that name can proceed, and nothing changes
+        if view[0] == "err" and not ext and (k % 3 == 1 or not ctx.quick()):
+            from hed.tools.remodeling.cli import run_remodel_backup, run_remodel_restore
+            tree_before = snap(root)
+            for label, fn in (("backup", lambda: run_remodel_backup.main([root, "-bn", spec["name"]])),
+                              ("restore", lambda: run_remodel_restore.main([root, "-bn", spec["name"]]))):
+                try:
+                    fn()
+                    got = None
+                except env.HedFileError as e:
+                    got = e.code
+                except Exception as e:
+                    got = type(e).__name__
+                want = scan_view(pt["scan"])[1] if pt is not None and "err" in pt["scan"] else view[1]
+                if got != want:
+                    ctx.disagree("CLI on a data root with an incomplete backup raises the scan's error", {**case, "k": k, "cli": label},
+                                 want, got)
+                ctx.count("incomplete-backup-cli-" + label + "-refused" if got is not None else "incomplete-backup-cli-" + label + "-PROCEEDED")
+            if snap(root) != tree_before:
+                ctx.violation("incomplete-backup-changed-by-cli", {**case, "k": k}, {})
         # direct oracle: a listed backup is complete and byte-equal to its sources
         if view[0] == "ok" and not existing:
             for name, keys in view[1]:
@@ -968,6 +993,10 @@ def opcrash_execute(ctx, env, st, ans, only_k=None):
         if {kk: v for kk, v in after.items() if kk[:3] == bkey} != bsnap:
             ctx.violation("backup-changed-by-interrupted-" + spec["target"], {**case, "k": k}, {"step": trace[k - 1] if k else None})
             continue
+        vw = env.manager_view(root, None)
+        if vw[0] != "ok" or sorted(tuple(kk.split("/")) for n_, ks_ in vw[1] if n_ == spec["name"] for kk in ks_) != sorted(rec):
+            ctx.violation("backup-not-listed-intact-after-interrupted-" + spec["target"], {**case, "k": k}, {"view": vw})
+            continue
         try:
             env.BM(root).restore_backup(spec["name"], [], verbose=False)
         except Exception as e:
@@ -1004,8 +1033,13 @@ def gen_bhist(rng, i):
         return {"op": "create", "via": "cli", "name": name, "args": sel}
     ops = []
     first = rng.choice(names)
+    good = None
     if i % 3 != 2:
         ops.append(a_create(first, empty=True))          # a backup with an EMPTY record ...
+    else:
+        good = rng.choice([n for n in names if n != first])
+        ops.append({"op": "create", "via": "api", "name": good, "files": list(rels), "fresh": False})
+        ops.append({"op": "modify", "path": rng.choice(rels), "bytes": gen_tsv(rng, True).decode("latin-1")})
     for _ in range(rng.randint(3, 7)):
         r = rng.random()
         if r < 0.4:
@@ -1014,7 +1048,10 @@ def gen_bhist(rng, i):
         elif r < 0.55:
             ops.append({"op": "reopen"})
         elif r < 0.75:
-            ops.append({"op": "restore", "name": rng.choice(names), "tasks": rng.choice([[], [], ["go"], ["nosuch", "go"]]),
+            made = [o["name"] for o in ops if o["op"] == "create" and (o.get("files") or o.get("args") in ([], ["-t", "go"]))]
+            ops.append({"op": "restore", "name": good if good and rng.random() < 0.8 else
+                        (rng.choice(made) if made and rng.random() < 0.5 else rng.choice(names)),
+                        "tasks": rng.choice([[], [], ["go"], ["nosuch", "go"]]),
                         "via": rng.choice(["api", "cli"]), "fresh": rng.random() < 0.5})
         else:
             ops.append({"op": "modify", "path": rng.choice(rels), "bytes": gen_tsv(rng, True).decode("latin-1")})
@@ -1102,6 +1139,18 @@ def bhist_run(ctx, env, spec, slot):
         now = snap(root)
         obs.append({"ret": ret, "err": err, "files": now, "view": env.manager_view(root, None)})
         ctx.count("bhist:" + o["op"] + (":" + o["via"] if "via" in o else ""))
+        if o["op"] == "restore" and err is None and o["name"] in known:
+            copies = {k[1:]: v for k, v in known[o["name"]].items() if k[0] == "backup_root"}
+            bk = ("derivatives", "remodel", "backups")
+            for f in set(src) | set(now):
+                if f[:3] == bk:
+                    continue
+                hit = f in copies and task_hit(o["tasks"], f)
+                if hit and now.get(f) != copies[f]:
+                    ctx.violation("restore-not-byte-identical", {**case, "at": i}, {"file": "/".join(f), "backup": o["name"]})
+                if not hit and now.get(f) != src.get(f):
+                    ctx.violation("task-restore-touched-unselected-file", {**case, "at": i}, {"file": "/".join(f), "backup": o["name"]})
+            ctx.count("bhist:restore-done")
         # ---- the oracle, from first principles: a name that exists is never overwritten
         for nm, was in known.items():
             cur = {k[4:]: v for k, v in now.items() if k[:4] == ("derivatives", "remodel", "backups", nm)}
@@ -1216,7 +1265,7 @@ def run(ctx):
                          "external backups root) x every step index of create_backup; non-trivial = strictly inside the "
                          "step sequence. history: random trees, backup via main or manager, <= 8 operations; non-trivial = "
                          ">= 2 operations")
-    n_crash = 40 if ctx.quick() else 400
+    n_crash = 32 if ctx.quick() else 400
     n_hist = 200 if ctx.quick() else 3000
     with Env() as env:
         key_cases(ctx, env, 300 if ctx.quick() else 3000)
@@ -1226,7 +1275,7 @@ def run(ctx):
         specs = [gen_bhist(ctx.rng, i) for i in range(80 if ctx.quick() else 1500)]
         ctx.samples.append({"bhist": [(o["op"], o.get("name"), o.get("via")) for o in specs[0]["ops"]]})
         bhist_cases(ctx, env, specs)
-        specs = [gen_opcrash(ctx.rng, i) for i in range(14 if ctx.quick() else 150)]
+        specs = [gen_opcrash(ctx.rng, i) for i in range(12 if ctx.quick() else 150)]
         opcrash_cases(ctx, env, specs)
         specs = [gen_history(ctx.rng, i) for i in range(n_hist)]
         ctx.samples.extend({"history": [o["op"] for o in sp["ops"]]} for sp in specs[:3])
